@@ -536,6 +536,11 @@ def build_macros_unit(cfg, n, outdir):
         text = rule_continue(text, log)
         if rel == 'macros/src/generate/query.rs':
             text = rule_optmap_ident(text, 'bind_one_of', 'found', log)
+        if rel == 'macros/src/parse/cfg.rs':
+            from . import emit
+            ztext = emit.zip_slice(add_markers(read_repo(rel), fid), log)
+            ztext = rule_panic(ztext, rel, table, log)
+            text += '\n// ---- R-zipslice / R-zip: the table-building tail of ParseCfgDecorated::parse\n' + ztext
         if rel == 'macros/src/generate/query.rs':
             # R-emit: the emission skeletons of the three query generators (C05)
             from . import emit
